@@ -1044,6 +1044,22 @@ func generate(x *world, rng *rand.Rand, thorough bool, total int) (cases []*fcas
 				}
 			}
 		}
+		// every document variant of the operations that store a document as a bucket or object setting: an accepted
+		// one is stored state that every later request of the bucket meets (see aftermath)
+		for _, op := range ops {
+			e := byOp[op][0]
+			if e.Kind != catalog.W || e.Level == catalog.LvlAdmin {
+				continue
+			}
+			for _, f := range fieldsOf[e.Name] {
+				if f.name != "body:doc" {
+					continue
+				}
+				for _, v := range f.vals {
+					add("sys", e, credValid, mk(f, v))
+				}
+			}
+		}
 		for _, f := range af {
 			for k := 0; k < 3; k++ {
 				authCase(catalog.ByName(authEntries[rng.Intn(len(authEntries))]), f, f.vals[rng.Intn(len(f.vals))])
